@@ -16,6 +16,7 @@ UNITS = {
     's_c14b': dict(cpp='harness/s_session.cpp', coroutines=('T_ele0', 'T_enter1', 'T_enter2'), inline_all=True, sessions=2, cdefs=('YK_VAL_CAP=16',)),
     's_c07': dict(cpp='harness/s_session.cpp', coroutines=('T_reader_session', 'T_remover_session', 'T_epoch', 'T_gc'), inline_all=True, sessions=2, cdefs=('YK_VAL_CAP=16', 'YK_MAX_SLEEPS=2', 'YK_NALLOC=3', 'YK_DRAIN_ROUNDS=1', 'YK_NEV=4')),
     'k_sites': dict(cpp='harness/k_sites.cpp', cdefs=('YK_VAL_CAP=16',)),
+    's_c07l': dict(cpp='harness/s_session.cpp', coroutines=('T_reader_open', 'T_remover_session', 'T_epoch'), inline_all=True, sessions=2, cdefs=('YK_VAL_CAP=16', 'YK_MAX_SLEEPS=2', 'YK_NALLOC=3', 'YK_DRAIN_ROUNDS=1')),
     'k_value': dict(cpp='harness/k_value.cpp', cdefs=('YK_VAL_CAP=48',)),
 }
 
@@ -42,6 +43,9 @@ _T1_BIG = [H('n_t1', 'H_t1_put_n14', 'put into T1(14) (last insert before the no
            H('n_t1s', 'H_t1_put_split', 'put into a FULL root border: border_split + new interior root; map semantics, RI, C12', T1B, tier='thorough', timeout=3400)]
 
 REGISTRY = {
+    'C07': [
+        H('s_c07l', 'H_c07_lean_t1', 'real enter/leave + epoch_thread + garbage_collection: reader session (left open) || remover session (unlink, retire) || epoch thread, then real gc passes: memory obtained inside the open session is not released', 'NT=3, sessions=2, template remover/epoch/reader/remover (4 contexts, every pre-emption point symbolic), <=2 epoch periods, SC', sync=3, timeout=2400),
+    ],
     'C14': [
         H('s_c14', 'H_c14_concurrent_enter', '3 concurrent real enter() calls on 2 slots: distinct tokens, capacity, exactly min(3,2) succeed, open sessions counted', 'NT=3, capacity 2, CTX=6 contexts + fair continuation, hook granularity, SC', sync=3, timeout=1200),
         H('s_c14b', 'H_c14_concurrent_enter_leave', 'enter;leave;enter racing two enters: exclusivity and capacity at every moment, slot reuse', 'NT=3, capacity 2, CTX=6', sync=3, timeout=1200),
@@ -98,6 +102,11 @@ REGISTRY = {
 }
 
 LEVEL_TEXT = {
+    'C07': dict(text='(i) protocol: the real enter/leave, epoch_thread and garbage_collection code run as sequentialized coroutines; which hook each thread is pre-empted at is symbolic, '
+                     'the thread order follows stated templates (the full 4-thread / free-order search exceeds 25 GB); the assertion is "a block obtained inside a session is live while that '
+                     'session is open". (ii) call-site conformance: the kind-N put/remove harnesses (C02) assert that every unlinked value is retired exactly once with the caller epoch and nothing is freed in place.',
+                note='Tree abstracted to one shared cell in (i). SC at hook granularity: the relaxed publication of begin_epoch is treated as SC (TSO store-buffer delay outside the claim). '
+                     'Bounds: 2 sessions, <= 2 epoch periods, 4 contexts + fair continuation.', ref='DESIGN.md 4/C07', sched=True),
     'C14': dict(text='Sequential half: one real enter/leave step from an ARBITRARY slot table (any history) for capacities 1, 2, 3 (YAKUSHIMA_MAX_PARALLEL_SESSIONS is a '
                      'compile flag: one encoding per capacity). Concurrent half (distinct tokens, capacity, WARN_MAX_SESSIONS only if every slot was seen occupied) by '
                      'the sequentialized-schedule harnesses where registered.',
